@@ -2,8 +2,12 @@ use crate::encoded_strings::{to_shift_jis, EncodedStringReader};
 use crate::errors::ArchiveError;
 use crate::{Endian, EndianAwareReader, EndianAwareWriter};
 use encoding_rs::SHIFT_JIS;
+#[cfg(not(mila_verif))]
 use indexmap::IndexMap;
+#[cfg(not(mila_verif))]
 use std::collections::{HashMap, HashSet};
+#[cfg(mila_verif)]
+use crate::verif_support::{HashMap, HashSet, IndexMap};
 use std::io::{Cursor, Read, Seek, SeekFrom, Write};
 
 type Result<T> = std::result::Result<T, ArchiveError>;
@@ -1677,5 +1681,76 @@ mod tests {
         let bytes = load_test_file(file_name);
         let result = BinArchive::from_bytes(&bytes, Endian::Little);
         assert!(result.is_err());
+    }
+}
+
+#[cfg(mila_verif)]
+pub mod verif_hooks {
+    //! Verification-build access to the private helpers of this module (wrappers only).
+    use super::{HashMap, Result};
+
+    pub fn validate_address(address: usize, size: usize, end_is_valid: bool) -> Result<()> {
+        super::validate_address(address, size, end_is_valid)
+    }
+
+    pub fn validate_alignment(value: usize, bytes: usize) -> Result<()> {
+        super::validate_alignment(value, bytes)
+    }
+
+    pub fn add_text(
+        raw_text: &mut Vec<u8>,
+        raw_text_offsets: &mut HashMap<String, usize>,
+        text: &String,
+    ) -> Result<usize> {
+        super::add_text(raw_text, raw_text_offsets, text)
+    }
+
+    pub fn adjust_pointer(pointer: usize, address: usize, count: usize, subtract: bool) -> usize {
+        super::adjust_pointer(pointer, address, count, subtract)
+    }
+
+    pub fn filter_text_or_labels<T: Clone>(
+        map: &HashMap<usize, T>,
+        address: usize,
+        count: usize,
+    ) -> HashMap<usize, T> {
+        super::filter_text_or_labels(map, address, count)
+    }
+
+    pub fn filter_pointers(
+        map: &HashMap<usize, usize>,
+        address: usize,
+        count: usize,
+    ) -> HashMap<usize, usize> {
+        super::filter_pointers(map, address, count)
+    }
+
+    pub fn adjust_text<T: Clone>(
+        map: &HashMap<usize, T>,
+        address: usize,
+        count: usize,
+        subtract: bool,
+    ) -> HashMap<usize, T> {
+        super::adjust_text(map, address, count, subtract)
+    }
+
+    pub fn adjust_labels<T: Clone>(
+        map: &HashMap<usize, T>,
+        address: usize,
+        count: usize,
+        subtract: bool,
+        ge: bool,
+    ) -> HashMap<usize, T> {
+        super::adjust_labels(map, address, count, subtract, ge)
+    }
+
+    pub fn adjust_pointers(
+        map: &HashMap<usize, usize>,
+        address: usize,
+        count: usize,
+        subtract: bool,
+        ge: bool,
+    ) -> HashMap<usize, usize> {
+        super::adjust_pointers(map, address, count, subtract, ge)
     }
 }
